@@ -104,6 +104,8 @@ package v1
 //@   mode int
 //@   uses escLenMono escLenBounds
 //@   opt split-returns
+//@   at-stmt "return dest, src[1:], nil" requires the-byte-read-is-the-one-after-the-bytes-decoded-so-far: len(src) > 0 && old(src)[escLen(fieldValue, len(dest) - old(len(dest)))] == src[0]
+//@   at-stmt "return dest, src[1:], nil" requires the-whole-value-has-been-read: len(dest) - old(len(dest)) == len(fieldValue)
 //@   requires !sameobj(dest, src) && !sameobj(dest, fieldValue)
 //@   requires encAt(src, fieldValue)
 //@   modifies dest[len(dest):cap(dest)]
